@@ -22,4 +22,8 @@ def C16(tier, seed, replay):
     return ps.store_property('C16', tier, seed, ps.hist_C16(tier), NOTE_STORE, replay)
 
 
-REGISTRY = {'C01': C01, 'C02': C02, 'C09': C09, 'C16': C16}
+def C07(tier, seed, replay):
+    return ps.store_property('C07', tier, seed, ps.hist_C07(tier), NOTE_STORE, replay)
+
+
+REGISTRY = {'C07': C07, 'C01': C01, 'C02': C02, 'C09': C09, 'C16': C16}
